@@ -4,6 +4,7 @@ set -e
 cd "$(dirname "$0")"
 mkdir -p .cache evidence
 python3 tools/extract_params.py || true
+python3 tools/rs2lean.py || true
 (cd lean && lake build)
 [ -f harness/Cargo.lock ] || cp /repo/Cargo.lock harness/Cargo.lock
 (cd harness && CARGO_NET_OFFLINE=true CARGO_TARGET_DIR="$(pwd)/../.cache/target" RUSTFLAGS="--cfg png_verif" cargo build --offline) || \
